@@ -277,7 +277,16 @@ impl Ctx {
             "tier": self.tier.name(),
             "case": case_json,
         });
-        let _ = std::fs::write(&path, serde_json::to_vec_pretty(&body).unwrap());
+        // several shards may find the same signature: keep the smallest case
+        let new_len = serde_json::to_string(case_json).unwrap().len();
+        let keep_old = std::fs::read(&path)
+            .ok()
+            .and_then(|b| serde_json::from_slice::<Value>(&b).ok())
+            .map(|old| old["signature"] == fail.sig.as_str() && serde_json::to_string(&old["case"]).unwrap().len() <= new_len)
+            .unwrap_or(false);
+        if !keep_old {
+            let _ = std::fs::write(&path, serde_json::to_vec_pretty(&body).unwrap());
+        }
         let p = path.to_string_lossy().to_string();
         self.out.failures.push(FailureRec {
             leg: leg.to_string(),
@@ -444,6 +453,50 @@ impl Ctx {
         ls.exhaustive = true;
         ls.bound = bound.to_string();
         ls.wall_s += t0.elapsed().as_secs_f64();
+    }
+
+    /// replay tier: every stored regression case of this property (shard 0 only)
+    pub fn run_regress(&mut self, replay: fn(&str, &Value) -> Option<Result<Verdict, String>>) {
+        if self.shard != 0 {
+            return;
+        }
+        let dir = PathBuf::from(crate::verif_root()).join("regress").join(&self.prop);
+        let mut files: Vec<PathBuf> = match std::fs::read_dir(&dir) {
+            Ok(rd) => rd.filter_map(|e| e.ok()).map(|e| e.path()).filter(|p| p.extension().map(|x| x == "json").unwrap_or(false)).collect(),
+            Err(_) => return,
+        };
+        files.sort();
+        for f in files {
+            let body: Value = match std::fs::read(&f).ok().and_then(|b| serde_json::from_slice(&b).ok()) {
+                Some(b) => b,
+                None => continue,
+            };
+            let leg = body["leg"].as_str().unwrap_or("").to_string();
+            self.journal(&leg, &body["case"]);
+            let r = replay(&leg, &body["case"]);
+            self.out.evaluations += 1;
+            let ls = self.out.legs.entry("regress".to_string()).or_default();
+            ls.evaluations += 1;
+            match r {
+                Some(Ok(v)) => {
+                    if let Some(fl) = v.fail {
+                        if self.is_known(&fl.sig) {
+                            *self.out.excluded_known.entry(fl.sig.clone()).or_insert(0) += 1;
+                        } else {
+                            self.out.failures.push(FailureRec {
+                                leg: format!("regress:{}", leg),
+                                sig: fl.sig,
+                                msg: fl.msg,
+                                replay: f.to_string_lossy().to_string(),
+                            });
+                        }
+                    }
+                }
+                Some(Err(e)) => self.out.inconclusive.push(format!("regress file {:?}: {}", f, e)),
+                None => self.out.inconclusive.push(format!("regress file {:?}: unknown leg {}", f, leg)),
+            }
+        }
+        self.clear_journal();
     }
 
     pub fn finish(mut self) -> ShardOut {
